@@ -471,7 +471,11 @@ class RunBundler:
                     "passed to subscribe() was not called with Dict[str, Reading]"
                 )
             data, timestamps = _rearrange_into_parallel_dicts(readings)
-            doc = compose_event(
+            # 'configure' on the monitored object replaces the stream's descriptor: refer to the
+            # descriptor that is current now, not to the one made when monitoring started.
+            current_bundle = self._descriptors.get(name)
+            current_compose_event = current_bundle.compose_event if current_bundle is not None else compose_event
+            doc = current_compose_event(
                 data=data,
                 timestamps=timestamps,
             )
